@@ -7,6 +7,9 @@ mod gen_ops;
 mod arena;
 mod visit;
 mod entities;
+mod misc;
+mod offsets;
+mod names;
 
 fn main() {
     let args: Vec<String> = std::env::args().collect();
@@ -25,6 +28,11 @@ fn main() {
         "visit-cf" => visit::visit_cf(&args[2..]),
         "visit-deep" => visit::visit_deep(&args[2..]),
         "entities" => entities::entities(&args[2..]),
+        "customs" => misc::customs(&args[2..]),
+        "emit-twice" => misc::emit_twice(&args[2..]),
+        "gc" => misc::gc(&args[2..]),
+        "offsets" => offsets::offsets(&args[2..]),
+        "names" => names::names(&args[2..]),
         other => {
             eprintln!("unknown subcommand {other}");
             exit(2)
